@@ -124,6 +124,15 @@ def _run(ctx, e2e):
         if not (p_hi - p_lo > 1.0):
             continue
         WF.place_pressures(rng, cfg, p_lo, p_hi)
+        if i % 3 == 1:
+            # pressures as people type them: P_MIN with two decimals (x.25, x.75 ...), DELTA_P with one decimal or none - the column
+            # labels are P_MIN + j DELTA_P whatever the number of decimals of either
+            qs_ = cfg["qha"]["settings"]
+            dp_ = max(0.1, float(numpy.floor(qs_["DELTA_P"] * 10) / 10)) if qs_["DELTA_P"] < 1 or i % 2 else max(1.0, float(numpy.floor(qs_["DELTA_P"])))
+            pm_ = float(numpy.ceil(qs_["P_MIN"] * 4) / 4) + (0.25 if float(numpy.ceil(qs_["P_MIN"] * 4) / 4) == round(qs_["P_MIN"]) else 0.0)
+            if pm_ + dp_ * (qs_["NTV"] - 1) < p_hi - 0.02 * (p_hi - p_lo) and pm_ > p_lo:
+                qs_["P_MIN"], qs_["DELTA_P"] = pm_, dp_
+                ctx.count("decimal_pressure_grids")
         # the sampling intervals of the QHA layer must not thin out cij's tables: rows are T_MIN + k DT for every k < NT
         cfg["qha"]["settings"]["DT_SAMPLE"] = cfg["qha"]["settings"]["DT"] * int(rng.choice([1, 2, 5]))
         cfg["qha"]["settings"]["DELTA_P_SAMPLE"] = cfg["qha"]["settings"]["DELTA_P"] * int(rng.choice([1, 2, 3]))
